@@ -156,8 +156,42 @@ class CW:
         while isinstance(t, tuple) and t[0] == "call" and t[1].startswith(ST) and t[1][len(ST):] in BUILDERS:
             ops.append((t[1][len(ST):], t[2][1]))
             t = strip(t[2][0])
+        # a transformer spelled as arithmetic on the raw word (`Self::from_raw(self.inner - COUNT + WEAK_COUNT)`, a State method a
+        # change introduced, read inlined): constants that are multiples of a field's unit are that field's add / sub
+        raw = self._raw_arith(t)
+        if raw is not None:
+            base, more = raw
+            b2, ops2 = self.parse_state(base)
+            ops.reverse()
+            return b2, ops2 + more + ops
         ops.reverse()
         return t, ops
+
+    def _raw_arith(self, t):
+        """State::from_raw(((S.inner) +/- c1) +/- c2 ..) -> (S, [(builder, arg), ..]) or None"""
+        t = strip(t)
+        if not (isinstance(t, tuple) and t[0] == "call" and t[1] == ST + "from_raw" and t[2]):
+            return None
+        x = strip(t[2][0])
+        more = []
+        while isinstance(x, tuple) and x[0] == "bin" and x[1] in ("Add", "Sub") and isinstance(x[3], tuple) and x[3][0] == "c" \
+                and isinstance(x[3][1], int):
+            c = x[3][1]
+            if c != 0 and c % self.WEAK_COUNT == 0 and c // self.WEAK_COUNT < (1 << 29):
+                if x[1] == "Sub":
+                    return None       # no builder for it: a weak decrement by arithmetic stays unparsed (analysis error)
+                more.append(("add_weak", ("c", c // self.WEAK_COUNT, "u32")))
+            elif 0 < c < self.WEAK_COUNT and c % self.COUNT == 0:
+                more.append(("add_strong" if x[1] == "Add" else "sub_strong", ("c", c // self.COUNT, "u32")))
+            else:
+                return None
+            x = strip(x[2])
+        if not more:
+            return None
+        if isinstance(x, tuple) and x[0] == "field" and x[1] in ("inner", "State.inner", "0"):
+            more.reverse()
+            return strip(x[2]), more
+        return None
 
     def unraw(self, term):
         """`S.as_raw()` -> S ; else None."""
